@@ -225,7 +225,7 @@ def judge(lang, t, lit, r):
     # the mathematical value of the IDL literal (a hex literal denotes its integer value)
     want = float(math_value(lit)) if form_of(lit) in ("hex", "neghex") else float(lit)
     if t == "float32":
-        want = struct.unpack("<f", struct.pack("<f", want))[0]
+        want = f32_nearest(lit) if form_of(lit) not in ("hex", "neghex") else struct.unpack("<f", struct.pack("<f", want))[0]
     got = r["value"][1] if isinstance(r["value"], tuple) else float(r["value"])
     if t == "float32":
         # probes print an f32 either widened to double or in its shortest decimal form
@@ -235,6 +235,43 @@ def judge(lang, t, lit, r):
     if lang == "rust" and r["type"] != RUST_T[t]:
         return {"error": "wrong type", "got": r["type"]}
     return None
+
+
+def f32_nearest(lit):
+    """the float32 nearest to the mathematical value of a decimal literal, rounded ONCE (ties to
+    even), by exact rational arithmetic — not through a double, which rounds twice"""
+    from fractions import Fraction
+    x = Fraction(lit)
+    c = struct.unpack("<f", struct.pack("<f", float(x)))[0]
+    if c != c or c in (float("inf"), float("-inf")):
+        return c
+    bits = struct.unpack("<I", struct.pack("<f", c))[0]
+    best = None
+    for b_ in (bits - 1, bits, bits + 1):
+        if b_ < 0 or (b_ & 0x7F800000) == 0x7F800000:
+            continue
+        v = struct.unpack("<f", struct.pack("<I", b_ & 0xFFFFFFFF))[0]
+        key = (abs(Fraction(v) - x), b_ & 1)
+        if best is None or key < best[0]:
+            best = (key, v)
+    return best[1]
+
+
+def f32_halfway_literals():
+    """decimal literals a hair above and below the midpoint of two adjacent float32 values: a
+    conversion that goes through a double first lands on the wrong neighbour"""
+    from fractions import Fraction
+    from decimal import Decimal, getcontext
+    getcontext().prec = 90
+    out = []
+    for base, k in ((Fraction(1), 1), (Fraction(1), 3), (Fraction(2), 5), (Fraction(1, 4), 7)):
+        ulp = base / 2 ** 23
+        mid = base + ulp * k / 2
+        for delta in (Fraction(1, 10 ** 30), -Fraction(1, 10 ** 30)):
+            v = mid + delta
+            d = Decimal(v.numerator) / Decimal(v.denominator)
+            out.append(format(d, "f"))
+    return out
 
 
 def classify(lang, t, lit):
@@ -343,6 +380,8 @@ def run(ctx, prop):
         if t in INTS:
             lits += [x for x in ("5", "1000", "-2", "0x7B") if rng_of(t)[0] <= math_value(x) <= rng_of(t)[1] and x not in lits]
         pick = lits if ctx.tier == "thorough" else ctx.rng.sample(lits, min(len(lits), 7))
+        if t == "float32":
+            pick = list(pick) + f32_halfway_literals()
         for lit in pick:
             consts.append((t, lit))
     # witnesses of the listed known findings are probed on every run
